@@ -3,6 +3,7 @@ package decoder
 import (
 	"bytes"
 	"encoding/json"
+	"fmt"
 	"io"
 	"strconv"
 	"unsafe"
@@ -260,214 +261,162 @@ LOOP:
 	return c
 }
 
-func (s *Stream) skipObject(depth int64) error {
-	braceCount := 1
-	_, cursor, p := s.stat()
+// The skip functions pass over a value the destination has no use for. Like their buffer-mode
+// twins in context.go they accept exactly what the decoders accept.
+
+// skipString passes over a string literal; the cursor is at the opening quote.
+func (s *Stream) skipString() error {
 	for {
-		switch char(p, cursor) {
-		case '{':
-			braceCount++
-			depth++
-			if depth > maxDecodeNestingDepth {
-				return errors.ErrExceededMaxDepth(s.char(), s.cursor)
-			}
-		case '}':
-			braceCount--
-			depth--
-			if braceCount == 0 {
-				s.cursor = cursor + 1
-				return nil
-			}
-		case '[':
-			depth++
-			if depth > maxDecodeNestingDepth {
-				return errors.ErrExceededMaxDepth(s.char(), s.cursor)
-			}
-		case ']':
-			depth--
+		s.cursor++
+		switch c := s.char(); c {
 		case '"':
-			for {
-				cursor++
-				switch char(p, cursor) {
-				case '\\':
-					cursor++
-					if char(p, cursor) == nul {
-						s.cursor = cursor
-						if s.read() {
-							_, cursor, p = s.stat()
-							continue
-						}
-						return errors.ErrUnexpectedEndOfJSON("string of object", cursor)
+			s.cursor++
+			return nil
+		case '\\':
+			s.cursor++
+			n := 0 // an escape is the character after the backslash and, for \u, four digits
+			for i := 0; i <= n; i++ {
+				for s.char() == nul {
+					if !s.read() {
+						return errors.ErrUnexpectedEndOfJSON("string", s.totalOffset())
 					}
-				case '"':
-					goto SWITCH_OUT
-				case nul:
-					s.cursor = cursor
-					if s.read() {
-						_, cursor, p = s.statForRetry()
-						continue
+				}
+				e := s.char()
+				if i == 0 {
+					switch e {
+					case '"', '\\', '/', 'b', 'f', 'n', 'r', 't':
+					case 'u':
+						n = 4
+					default:
+						return errors.ErrSyntax(fmt.Sprintf("invalid character %q in string escape code", e), s.totalOffset())
 					}
-					return errors.ErrUnexpectedEndOfJSON("string of object", cursor)
+				} else if hexToInt[e] == 0 && e != '0' {
+					return errors.ErrSyntax(fmt.Sprintf("json: invalid character %c in \\u hexadecimal character escape", e), s.totalOffset())
+				}
+				if i < n {
+					s.cursor++
 				}
 			}
 		case nul:
-			s.cursor = cursor
-			if s.read() {
-				_, cursor, p = s.stat()
-				continue
+			if !s.read() {
+				return errors.ErrUnexpectedEndOfJSON("string", s.totalOffset())
 			}
-			return errors.ErrUnexpectedEndOfJSON("object of object", cursor)
+			s.cursor-- // look at this position again
+		default:
+			if c < 0x20 {
+				return errors.ErrControlCharInString(c, s.totalOffset())
+			}
 		}
-	SWITCH_OUT:
-		cursor++
 	}
 }
 
-func (s *Stream) skipArray(depth int64) error {
-	bracketCount := 1
-	_, cursor, p := s.stat()
+// skipMember passes over `"key" : value`; the cursor is at or before the key.
+func (s *Stream) skipMember(depth int64) error {
+	switch s.skipWhiteSpace() {
+	case '"':
+	case nul:
+		return errors.ErrUnexpectedEndOfJSON("object", s.totalOffset())
+	default:
+		return errors.ErrExpected("string for object key", s.totalOffset())
+	}
+	if err := s.skipString(); err != nil {
+		return err
+	}
+	if s.skipWhiteSpace() != ':' {
+		return errors.ErrExpected("colon after object key", s.totalOffset())
+	}
+	s.cursor++
+	return s.skipValue(depth)
+}
+
+// skipObjectRest passes over the rest of an object; the cursor is behind a member's value.
+func (s *Stream) skipObjectRest(depth int64) error {
 	for {
-		switch char(p, cursor) {
-		case '[':
-			bracketCount++
-			depth++
-			if depth > maxDecodeNestingDepth {
-				return errors.ErrExceededMaxDepth(s.char(), s.cursor)
-			}
-		case ']':
-			bracketCount--
-			depth--
-			if bracketCount == 0 {
-				s.cursor = cursor + 1
-				return nil
-			}
-		case '{':
-			depth++
-			if depth > maxDecodeNestingDepth {
-				return errors.ErrExceededMaxDepth(s.char(), s.cursor)
-			}
+		switch s.skipWhiteSpace() {
 		case '}':
-			depth--
-		case '"':
-			for {
-				cursor++
-				switch char(p, cursor) {
-				case '\\':
-					cursor++
-					if char(p, cursor) == nul {
-						s.cursor = cursor
-						if s.read() {
-							_, cursor, p = s.stat()
-							continue
-						}
-						return errors.ErrUnexpectedEndOfJSON("string of object", cursor)
-					}
-				case '"':
-					goto SWITCH_OUT
-				case nul:
-					s.cursor = cursor
-					if s.read() {
-						_, cursor, p = s.statForRetry()
-						continue
-					}
-					return errors.ErrUnexpectedEndOfJSON("string of object", cursor)
-				}
+			s.cursor++
+			return nil
+		case ',':
+			s.cursor++
+			if err := s.skipMember(depth); err != nil {
+				return err
 			}
 		case nul:
-			s.cursor = cursor
-			if s.read() {
-				_, cursor, p = s.stat()
-				continue
-			}
-			return errors.ErrUnexpectedEndOfJSON("array of object", cursor)
+			return errors.ErrUnexpectedEndOfJSON("object", s.totalOffset())
+		default:
+			return errors.ErrExpected("comma after object element", s.totalOffset())
 		}
-	SWITCH_OUT:
-		cursor++
+	}
+}
+
+// skipObject passes over an object; the cursor is behind the opening brace, depth counts that brace.
+func (s *Stream) skipObject(depth int64) error {
+	if depth > maxDecodeNestingDepth {
+		return errors.ErrExceededMaxDepth('{', s.totalOffset())
+	}
+	if s.skipWhiteSpace() == '}' {
+		s.cursor++
+		return nil
+	}
+	if err := s.skipMember(depth); err != nil {
+		return err
+	}
+	return s.skipObjectRest(depth)
+}
+
+// skipArray passes over an array; the cursor is behind the opening bracket, depth counts that bracket.
+func (s *Stream) skipArray(depth int64) error {
+	if depth > maxDecodeNestingDepth {
+		return errors.ErrExceededMaxDepth('[', s.totalOffset())
+	}
+	if s.skipWhiteSpace() == ']' {
+		s.cursor++
+		return nil
+	}
+	for {
+		if err := s.skipValue(depth); err != nil {
+			return err
+		}
+		switch s.skipWhiteSpace() {
+		case ']':
+			s.cursor++
+			return nil
+		case ',':
+			s.cursor++
+		case nul:
+			return errors.ErrUnexpectedEndOfJSON("array", s.totalOffset())
+		default:
+			return errors.ErrExpected("comma after array element", s.totalOffset())
+		}
 	}
 }
 
 func (s *Stream) skipValue(depth int64) error {
-	_, cursor, p := s.stat()
-	for {
-		switch char(p, cursor) {
-		case ' ', '\n', '\t', '\r':
-			cursor++
-			continue
-		case nul:
-			s.cursor = cursor
-			if s.read() {
-				_, cursor, p = s.stat()
-				continue
-			}
-			return errors.ErrUnexpectedEndOfJSON("value of object", s.totalOffset())
-		case '{':
-			s.cursor = cursor + 1
-			return s.skipObject(depth + 1)
-		case '[':
-			s.cursor = cursor + 1
-			return s.skipArray(depth + 1)
-		case '"':
-			for {
-				cursor++
-				switch char(p, cursor) {
-				case '\\':
-					cursor++
-					if char(p, cursor) == nul {
-						s.cursor = cursor
-						if s.read() {
-							_, cursor, p = s.stat()
-							continue
-						}
-						return errors.ErrUnexpectedEndOfJSON("value of string", s.totalOffset())
-					}
-				case '"':
-					s.cursor = cursor + 1
-					return nil
-				case nul:
-					s.cursor = cursor
-					if s.read() {
-						_, cursor, p = s.statForRetry()
-						continue
-					}
-					return errors.ErrUnexpectedEndOfJSON("value of string", s.totalOffset())
-				}
-			}
-		case '-', '0', '1', '2', '3', '4', '5', '6', '7', '8', '9':
-			for {
-				cursor++
-				c := char(p, cursor)
-				if floatTable[c] {
-					continue
-				} else if c == nul {
-					s.cursor = cursor
-					if s.read() {
-						_, cursor, p = s.statForRetry()
-						continue
-					}
-				}
-				s.cursor = cursor
-				return nil
-			}
-		case 't':
-			s.cursor = cursor
-			if err := trueBytes(s); err != nil {
-				return err
-			}
-			return nil
-		case 'f':
-			s.cursor = cursor
-			if err := falseBytes(s); err != nil {
-				return err
-			}
-			return nil
-		case 'n':
-			s.cursor = cursor
-			if err := nullBytes(s); err != nil {
-				return err
-			}
-			return nil
+	switch c := s.skipWhiteSpace(); c {
+	case '{':
+		s.cursor++
+		return s.skipObject(depth + 1)
+	case '[':
+		s.cursor++
+		return s.skipArray(depth + 1)
+	case '"':
+		return s.skipString()
+	case '-', '0', '1', '2', '3', '4', '5', '6', '7', '8', '9':
+		num := floatBytes(s)
+		if !isValidNumber(num) {
+			return errInvalidNumber(num, s.totalOffset())
 		}
-		cursor++
+		return nil
+	case 't':
+		return trueBytes(s)
+	case 'f':
+		return falseBytes(s)
+	case 'n':
+		return nullBytes(s)
+	case nul:
+		return errors.ErrUnexpectedEndOfJSON("value", s.totalOffset())
+	default:
+		return errors.ErrInvalidBeginningOfValue(c, s.totalOffset())
 	}
 }
 
